@@ -54,7 +54,8 @@ def line (j : Json) : R Line := do
     fault := ← phase (← field j "fault")
     comment := ← optStr (← field j "c")
     textEmpty := ← bool (← field j "e")
-    crlf := ← bool (← field j "crlf") }
+    crlf := ← bool (← field j "crlf")
+    inner := ← nat (← field j "inner") }
 
 def defn (j : Json) : R Def := do
   pure { lines := ← (← arr (← field j "lines")).mapM line, finalFault := ← bool (← field j "final_fault") }
